@@ -845,6 +845,23 @@ class Generator:
                 body_txt = txt[b_lo:b_hi]
                 ok, why = check_holds(body_txt, var, decl_re, until_re)
                 self.syntactic.append(dict(oid=oid, tags=tags, addr=addr, ok=ok, why=why, src_file=rel, src_line=src_line))
+            # the named call must be made unconditionally: exactly once, in the top-level block of the body
+            for (call_re, oid, tags) in c.mustcall:
+                body_txt = txt[b_lo:b_hi]
+                ms = list(re.finditer(call_re, body_txt))
+                ok, why = True, ''
+                if len(ms) != 1:
+                    ok, why = False, '/%s/ occurs %d times' % (call_re, len(ms))
+                else:
+                    depth = 0
+                    for t in lex(body_txt[:ms[0].start()]):
+                        if t.kind == 'punct' and t.text == '{':
+                            depth += 1
+                        elif t.kind == 'punct' and t.text == '}':
+                            depth -= 1
+                    if depth != 0:
+                        ok, why = False, '/%s/ is nested in a block (conditional?) of the body' % call_re
+                self.syntactic.append(dict(oid=oid, tags=tags, addr=addr, ok=ok, why=why, src_file=rel, src_line=src_line))
             # R15: closure headers get parameter types, a named result and requires/ensures; the closure
             # body is copied verbatim inside braces
             for cs in c.closures:
